@@ -98,6 +98,9 @@ def vkey(v):
     return ("id", id(v))
 
 
+_ENGINE_TYPE_NAMES = ("'SymList'", "'SymDict'", "'SymIter'", "'StructStr'", "'Pair'", "'U'", "'Opaque'", "'Obj'", "'Cond'", "'_Unbound'", "'ClassVal'", "'FuncVal'", "'BoundMethod'")
+
+
 def _call(f, vals):
     for v in vals:
         if v is UNBOUND:
@@ -105,6 +108,10 @@ def _call(f, vals):
     try:
         return True, f(*vals)
     except Exception as e:  # noqa: BLE001 - leaf semantics are CPython's
+        if isinstance(e, (AttributeError, TypeError)) and any(k in str(e) for k in _ENGINE_TYPE_NAMES):
+            # a CPython operation was applied to an engine object (a symbolic list inside a pair
+            # leaf, ...): that is the engine's limit, not an exception of the analysed program
+            raise Unsupported("leaf operation reached an engine object: %s" % (e,))
         return False, e
 
 
